@@ -62,7 +62,7 @@ Proof.
   assert (Hk : key_eqb (conn, r) k' = false) by (apply key_eqb_neq; congruence).
   destruct (cache_get tr (conn, r)) as [ref|].
   - destruct (is_bad_frequency ref); [reflexivity|].
-    destruct (calculate_frequency_p0f_style _ ref); cbn [fst]; [reflexivity|].
+    destruct (calculate_frequency_p0f_style _ ref); cbn [fst]; [reflexivity | reflexivity |].
     now rewrite cache_get_insert, Hk.
   - cbn [fst]. now rewrite cache_get_insert, Hk.
 Qed.
@@ -75,7 +75,7 @@ Proof.
   intros E. unfold check_ts_tcp. rewrite <- E.
   destruct (cache_get tr1 (conn, r)) as [ref|] eqn:G.
   - destruct (is_bad_frequency ref); [cbn [fst snd]; rewrite G; auto|].
-    destruct (calculate_frequency_p0f_style _ ref); cbn [fst snd]; [rewrite G; auto|].
+    destruct (calculate_frequency_p0f_style _ ref); cbn [fst snd]; [rewrite G; auto | rewrite G; auto |].
     now rewrite !cache_get_insert, key_eqb_refl.
   - cbn [fst snd]. now rewrite !cache_get_insert, key_eqb_refl.
 Qed.
@@ -189,21 +189,34 @@ Proof. destruct e as [v t b]; cbn. intros ->. reflexivity. Qed.
 Lemma process_failed_eval tr s now ref :
   seg_valid s = true ->
   cache_get tr (seg_key s) = Some ref -> is_bad_frequency ref = false ->
-  model_estimate (recv_time_ms ref) (ts_val ref) now (sg_tsval s) = None ->
+  model_eval (recv_time_ms ref) (ts_val ref) now (sg_tsval s) = EvBad ->
   snd (process_segment tr s now) = ROut None None /\
   cache_get (fst (process_segment tr s now)) (seg_key s) = Some bad_frequency_marker.
 Proof.
   intros V G B M. rewrite process_unfold, V. cbn [negb fst snd].
-  unfold model_estimate in M. rewrite <- (ref_is_now ref B) in M.
+  unfold model_eval in M. rewrite <- (ref_is_now ref B) in M.
   unfold check_ts_tcp. unfold seg_key in G. rewrite G, B.
-  destruct (calculate_frequency_p0f_style (ts_now (sg_tsval s) now) ref); [discriminate|].
+  destruct (calculate_frequency_p0f_style (ts_now (sg_tsval s) now) ref); [discriminate | discriminate |].
   cbn [fst snd]. split; [reflexivity|]. now rewrite cache_get_insert, key_eqb_refl.
+Qed.
+
+(* "keep waiting": nothing reported, tracker untouched (the reference stays, no marker) *)
+Lemma process_wait tr s now ref :
+  seg_valid s = true ->
+  cache_get tr (seg_key s) = Some ref -> is_bad_frequency ref = false ->
+  model_eval (recv_time_ms ref) (ts_val ref) now (sg_tsval s) = EvWait ->
+  process_segment tr s now = (tr, ROut None None).
+Proof.
+  intros V G B M. rewrite process_unfold, V. cbn [negb].
+  unfold model_eval in M. rewrite <- (ref_is_now ref B) in M.
+  unfold check_ts_tcp. unfold seg_key in G. rewrite G, B.
+  destruct (calculate_frequency_p0f_style (ts_now (sg_tsval s) now) ref); try discriminate. reflexivity.
 Qed.
 
 Theorem sticky_after_failed_eval tr s now ref h :
   seg_valid s = true ->
   cache_get tr (seg_key s) = Some ref -> is_bad_frequency ref = false ->
-  model_estimate (recv_time_ms ref) (ts_val ref) now (sg_tsval s) = None ->
+  model_eval (recv_time_ms ref) (ts_val ref) now (sg_tsval s) = EvBad ->
   let tr' := fst (process_segment tr s now) in
   snd (process_segment tr s now) = ROut None None /\
   Forall silent (outputs_of (seg_key s) h (run_history tr' h)) /\
@@ -222,9 +235,9 @@ Lemma process_eval tr s now ref :
   process_segment tr s now = (tr, if seg_role s then ROut (Some u) None else ROut None (Some u)).
 Proof.
   intros V G B u M. rewrite process_unfold, V. cbn [negb].
-  unfold model_estimate in M. rewrite <- (ref_is_now ref B) in M.
+  unfold model_estimate, model_eval in M. rewrite <- (ref_is_now ref B) in M.
   unfold check_ts_tcp. unfold seg_key in G. rewrite G, B.
-  destruct (calculate_frequency_p0f_style (ts_now (sg_tsval s) now) ref); [|discriminate].
+  destruct (calculate_frequency_p0f_style (ts_now (sg_tsval s) now) ref); [|discriminate|discriminate].
   inversion M. cbn [fst snd]. now destruct (seg_role s).
 Qed.
 
@@ -295,6 +308,7 @@ Proof.
     + destruct (calculate_frequency_p0f_style _ ref).
       * destruct (seg_role s); cbn [fst snd role_of_bool] in *; inversion E; subst; repeat split; auto; congruence.
       * cbn [fst snd] in E. inversion E. subst. repeat split; auto; congruence.
+      * cbn [fst snd] in E. inversion E. subst. repeat split; auto; congruence.
   - cbn [fst snd] in E. inversion E. subst. repeat split; auto; congruence.
 Qed.
 
@@ -307,7 +321,7 @@ Definition ex_tracker : cache := fst (process_segment [] (ex_seg 2 1000) 5000).
 Example sticky_hypotheses_ex :
   seg_valid (ex_seg 16 1010) = true /\
   cache_get ex_tracker (seg_key (ex_seg 16 1010)) = Some (ts_now 1000 5000) /\
-  model_estimate 5000 1000 5010 1010 = None /\
+  model_eval 5000 1000 5010 1010 = EvBad /\
   run_history ex_tracker [(ex_seg 16 1010, 5010); (ex_seg 16 2000, 6000); (ex_seg 24 3000, 7000)]
   = [ROut None None; ROut None None; ROut None None].
 Proof. vm_compute. auto. Qed.
